@@ -145,7 +145,7 @@ def check_faithful(G, cg, where):
     n = G.number_of_nodes()
     if type(cg) is not type(G):
         raise Violation("faithful-class", f"{where}: canonical graph is a {type(cg).__name__}, input a {type(G).__name__}")
-    if sorted(cg.nodes, key=repr) != list(range(1, n + 1)):
+    if any(type(x) is not int for x in cg.nodes) or set(cg.nodes) != set(range(1, n + 1)):
         raise Violation("faithful-ids", f"{where}: canonical node ids {sorted(cg.nodes, key=repr)} are not 1..{n}")
     if cg.number_of_edges() != G.number_of_edges():
         raise Violation("faithful-bijection", f"{where}: {cg.number_of_edges()} edges, input has {G.number_of_edges()}")
@@ -393,7 +393,7 @@ def make_enum(tier_all=False):
 
 # ------------------------------------------------------------------ pairs
 @st.composite
-def near_edit(draw, case):
+def near_edit(draw, case, e0=None):
     """One edit that keeps the multisets of node and edge labels when it can: swap the attributes of two nodes,
     move an edge, swap the attributes of two edges; otherwise a plain one-attribute / one-edge edit."""
     nodes = [[n, dict(a)] for n, a in case["nodes"]]
@@ -424,7 +424,7 @@ def near_edit(draw, case):
         for k, alts in (("element", ["C", "N", "O"]), ("charge", [0, -1, 1]), ("hcount", [0, 1, 2]), ("aromatic", [False, True])):
             if k in a0:
                 node_alts[k] = alts
-        e0 = edges[0][2] if edges else {"order": 1}
+        e0 = e0 or (edges[0][2] if edges else {"order": 1})  # edge attribute schema (and types) of the base graph
         if isinstance(e0["order"], list):
             pool = [dict(x) for x in _ITS_EDGES] + [dict(order=[0, 1.0], standard_order=-1.0)]
             g2, _ = draw(gg.one_edit({"nodes": nodes, "edges": edges}, node_alts=node_alts, edge_alts={"order": [[9.0, 9.0]]}))
@@ -447,8 +447,9 @@ def strat_pairs(draw, backends, max_nodes=8):
     a = draw(base_graphs(max_nodes=max_nodes))
     how = draw(st.sampled_from(["copy", "copy", "edit", "edit", "edit2"]))
     b, steps = a, []
+    e0 = a["edges"][0][2] if a["edges"] else None
     for _ in range({"copy": 0, "edit": 1, "edit2": 2}[how]):
-        b, k = draw(near_edit(b))
+        b, k = draw(near_edit(b, e0))
         steps.append(k)
     b, _ = draw(gg.relabelled(b))
     return {"a": a, "b": b, "how": "+".join(steps) or "copy", "backends": list(backends), "mod": draw(st.sampled_from(["top", "top", "pkg"]))}
@@ -658,16 +659,16 @@ def strat_rules(draw, tier):
 
 # ------------------------------------------------------------------ sub-checks
 SUBS = [
-    Sub("faithful", body_faithful, strategy=strat_faithful, examples={"quick": 2400, "thorough": 40000}, shards={"quick": 8, "thorough": 16},
+    Sub("faithful", body_faithful, strategy=strat_faithful, examples={"quick": 2000, "thorough": 24000}, shards={"quick": 8, "thorough": 16},
         doc="canonical graph is an attribute-preserving relabelling onto 1..N (all back-ends, both modules, extra attributes); signature deterministic"),
 ] + [
     Sub(f"classes_{b}", make_body_enum(b), enum=make_enum(), exhaustive=True, shards={"quick": 2, "thorough": 4},
         doc=f"{b}: enumerated domains grouped by signature - every group inside one isomorphism class" + ("; every class in one group with one canonical graph" if b == "nauty" else ""))
     for b in BACKENDS
 ] + [
-    Sub("pairs_exact", body_pair, strategy=lambda tier: strat_pairs(["nauty"]), examples={"quick": 2400, "thorough": 40000}, shards={"quick": 8, "thorough": 16},
+    Sub("pairs_exact", body_pair, strategy=lambda tier: strat_pairs(["nauty"]), examples={"quick": 2000, "thorough": 24000}, shards={"quick": 8, "thorough": 16},
         doc="nauty: graph vs renumbered copy / edited neighbour - signatures, canonical graphs, CanonicalGraph and SynGraph equal iff isomorphic"),
-    Sub("pairs_sound", body_pair, strategy=lambda tier: strat_pairs(["generic", "wl", "morgan"]), examples={"quick": 2400, "thorough": 40000}, shards={"quick": 6, "thorough": 16},
+    Sub("pairs_sound", body_pair, strategy=lambda tier: strat_pairs(["generic", "wl", "morgan"]), examples={"quick": 2000, "thorough": 24000}, shards={"quick": 6, "thorough": 16},
         doc="generic/wl/morgan: equal signatures / equal wrappers => isomorphic"),
     Sub("rules", body_rules, strategy=strat_rules, examples={"quick": 480, "thorough": 6000}, shards={"quick": 8, "thorough": 16},
         doc="SynRule (+ rc SynGraph) on corpus templates vs renumbered copies and other templates: equal iff fragments isomorphic (nauty), equal => isomorphic (others)"),
